@@ -135,6 +135,7 @@ fn run_case(t: &mut Tape, code: usize, ctx: &mut Ctx) -> PResult {
     let err_mode = if t.p(56) { 1 + t.choice(3) } else { 0 }; // 1 token garbage, 2 type/sense, 3 truncation sweep
     let style = t.byte();
     let pick = t.u16();
+    let crlf = t.p(56);
     ctx.label(format!("code={}", code_name(code)));
     let qp = gen_qp(t, code, ctx);
     let (comments, blanks, trailing) = (style & 1 == 1, style & 2 == 2, style & 4 == 4);
@@ -144,7 +145,12 @@ fn run_case(t: &mut Tape, code: usize, ctx: &mut Ctx) -> PResult {
     if trailing {
         ctx.label("trailing-text");
     }
-    let clean = write_qplib(&qp, comments, blanks, trailing, style >> 3, &QInject::None);
+    // DOS line endings: the same lines, the same line numbers
+    let eol = |w: Written| -> Written { if crlf { Written { text: w.text.replace('\n', "\r\n"), ..w } } else { w } };
+    if crlf {
+        ctx.label("crlf-line-endings");
+    }
+    let clean = eol(write_qplib(&qp, comments, blanks, trailing, style >> 3, &QInject::None));
     ctx.fp_str(&clean.text);
     ctx.fp(&[err_mode as u8]);
     ctx.fp(&pick.to_le_bytes());
@@ -196,7 +202,7 @@ fn run_case(t: &mut Tape, code: usize, ctx: &mut Ctx) -> PResult {
                 (QInject::Token(tk.0.clone()), format!("bad-{class}"))
             };
             ctx.label(format!("error={class}"));
-            let bad = write_qplib(&qp, comments, blanks, trailing, style >> 3, &inject);
+            let bad = eol(write_qplib(&qp, comments, blanks, trailing, style >> 3, &inject));
             let tok = match &inject {
                 QInject::Token(id) => id.clone(),
                 QInject::BadSense => "sense".to_string(),
@@ -219,8 +225,9 @@ fn run_case(t: &mut Tape, code: usize, ctx: &mut Ctx) -> PResult {
             // premature end of file after every line
             let lines: Vec<&str> = clean.text.lines().collect();
             for k in 1..lines.len() {
-                let mut trunc = lines[..k].join("\n");
-                trunc.push('\n');
+                let nl = if crlf { "\r\n" } else { "\n" };
+                let mut trunc = lines[..k].join(nl);
+                trunc.push_str(nl);
                 match load_text(&trunc) {
                     Ok(_) => return fail("C19/truncation-accepted", format!("file truncated after line {k} of {} was accepted:\n{trunc}", lines.len())),
                     Err(e) => {
@@ -245,7 +252,7 @@ impl Property for C19 {
     }
     fn required_labels(&self) -> Vec<String> {
         let mut v: Vec<String> = (0..120).map(|c| format!("code={}", code_name(c))).collect();
-        v.extend(["default-b0!=0", "infinite-side", "both-sides", "names", "diagonal-entry", "error=truncation", "error=type-wrong-letter", "error=type-too-short", "error=bad-sense", "error=bad-n", "error=bad-q0-entry", "error=bad-infinity", "error=bad-cl-entry", "error=bad-type-entry", "comments", "trailing-text", "integer-01-bounds", "matrix-entries-below-epsilon"].iter().map(|s| s.to_string()));
+        v.extend(["default-b0!=0", "infinite-side", "both-sides", "names", "diagonal-entry", "error=truncation", "error=type-wrong-letter", "error=type-too-short", "error=bad-sense", "error=bad-n", "error=bad-q0-entry", "error=bad-infinity", "error=bad-cl-entry", "error=bad-type-entry", "comments", "trailing-text", "integer-01-bounds", "matrix-entries-below-epsilon", "crlf-line-endings", "name-with-exponent-like-fragment"].iter().map(|s| s.to_string()));
         v
     }
     fn cases(&self, tier: Tier) -> usize {
